@@ -1,31 +1,44 @@
 /-
   Scc.Fun2Core.SemCorePure2 — `core_pure` / `core_args`: the Core ς-machine evaluates the translation
-  of a first-order pure Fun term (argument list) to the Core value(s) related to its Fun value(s).
-  (Programs without codata declarations.)
+  of a pure Fun term (variables, literals, `+ - *`, constructors, `new`, parentheses) / of a pure
+  argument list to the Core value(s) related to its Fun value(s).  Environments: an ideal Core
+  environment related to the Fun environment, and the actual one agreeing with it on the free
+  variables of the translated producer.
 -/
 import Scc.Fun2Core.SemCorePure
+import Scc.Fun2Core.SemNames
 
 namespace Scc.Fun2Core.Sem
 open Scc
 
 variable {G : Fun.Term → Prop} {q : Core.Prog} {p : Fun.CheckedProgram}
 
+/-- terms whose suspension (by-name argument / binding) is their value: variables and `new` -/
+def pureS : Fun.Term → Bool
+  | .var .. => true
+  | .new .. => true
+  | .paren t => pureS t
+  | _ => false
+
 mutual
-  /-- first-order pure terms: variables, literals, `+ - *`, constructors, parentheses -/
-  def pureFO : Fun.Term → Bool
+  /-- pure terms: variables, literals, `+ - *`, constructors, `new` (clauses accepted by `gc`),
+  parentheses; an argument of codata type is a variable or a `new` -/
+  def pureFO (p : Fun.CheckedProgram) (gc : Fun.Clauses → Bool) : Fun.Term → Bool
     | .var .. => true
     | .lit _ => true
-    | .op a o b => o != .div && o != .rem && pureFO a && pureFO b
-    | .ctor _ as _ => pureFOs as
-    | .paren t => pureFO t
+    | .op a o b => o != .div && o != .rem && pureFO p gc a && pureFO p gc b
+    | .ctor _ as _ => pureFOs p gc as
+    | .new cs _ => gc cs
+    | .paren t => pureFO p gc t
     | _ => false
-  def pureFOs : Fun.Terms → Bool
+  def pureFOs (p : Fun.CheckedProgram) (gc : Fun.Clauses → Bool) : Fun.Terms → Bool
     | .nil => true
-    | .cons t r => pureFO t && pureFOs r
+    | .cons t r =>
+      pureFO p gc t &&
+      (match t.getType with
+        | some ty => !Fun.isCodataTy p ty || pureS t
+        | none => true) && pureFOs p gc r
 end
-
-theorem isCodataTy_nil (hp : p.codataTypes = []) (ty : Fun.Ty) : Fun.isCodataTy p ty = false := by
-  cases ty <;> simp [Fun.isCodataTy, hp]
 
 theorem getType_eq : ∀ t : Fun.Term, getType t = t.getType
   | .var .. => rfl
@@ -82,20 +95,53 @@ theorem EnvRel.sigExt {m n : Nat} {xs : List String} {env : Fun.Env} {ρ ρ' : C
     EnvRel G q m xs env ρ' :=
   h.agree fun y hy => he.lookup ⟨y, 0⟩ (fun e => absurd e (hs y hy))
 
-theorem mem_append_left' {α} {a : α} {l1 l2 : List α} (h : a ∈ l1) : a ∈ l1 ++ l2 :=
-  List.mem_append.2 (.inl h)
-theorem mem_append_right' {α} {a : α} {l1 l2 : List α} (h : a ∈ l2) : a ∈ l1 ++ l2 :=
-  List.mem_append.2 (.inr h)
+/-- the value of a suspended variable / `new` is its value as a pure term -/
+theorem suspend_pure : ∀ (t : Fun.Term) (env : Fun.Env), pureS t = true →
+    exceptToOption (Fun.suspend t env) = pureVal p t env
+  | .var x ty chi, env, _ => by
+    simp only [Fun.suspend, pureVal]
+    cases Fun.lookup x env <;> rfl
+  | .new cs ty, env, _ => rfl
+  | .paren t, env, h => by
+    simp only [Fun.suspend, pureVal]
+    exact suspend_pure t env (by simpa [pureS] using h)
+  | .lit _, _, h => by simp [pureS] at h
+  | .op .., _, h => by simp [pureS] at h
+  | .ifc .., _, h => by simp [pureS] at h
+  | .ifz .., _, h => by simp [pureS] at h
+  | .print .., _, h => by simp [pureS] at h
+  | .letIn .., _, h => by simp [pureS] at h
+  | .call .., _, h => by simp [pureS] at h
+  | .ctor .., _, h => by simp [pureS] at h
+  | .dtor .., _, h => by simp [pureS] at h
+  | .case .., _, h => by simp [pureS] at h
+  | .label .., _, h => by simp [pureS] at h
+  | .goto .., _, h => by simp [pureS] at h
+  | .exit .., _, h => by simp [pureS] at h
+
+/-- the ideal environment of an extension of the actual environment by machine-fresh names -/
+theorem ideal_sigExt {m n : Nat} {xs : List String} {env : Fun.Env} {ρ0 ρ ρ' : CEnv}
+    {bs : List Core.Binding} (he : EnvRel G q m xs env ρ0) (hbd : BoundOn bs ρ0)
+    (hag : AgreeOn bs ρ0 ρ) (hext : SigExt n ρ ρ') (hs : ∀ y ∈ xs, y ≠ sig) :
+    ∃ ρ0', EnvRel G q m xs env ρ0' ∧ BoundOn bs ρ0' ∧ AgreeOn bs ρ0' ρ' := by
+  obtain ⟨ρ0', hext0, hag'⟩ := hext.agree (ρ0 := ρ0)
+  exact ⟨ρ0', he.sigExt hext0 hs, hbd.sigExt hext0, hag' _ hag⟩
+
+section
+variable (gc : Fun.Clauses → Bool)
+  (hgc : ∀ cs, gc cs = true → ∀ K cl, Fun.findClause K cs = some cl →
+    G cl.body ∧ cl.names.Nodup ∧ cl.ctx.map (·.var) = cl.names)
+include hgc
 
 mutual
-  /-- the translation of a first-order pure term denotes a value related to the term's value -/
-  theorem core_pure (hq : q.codataTypes = []) (hp : p.codataTypes = []) :
-      ∀ (t : Fun.Term), pureFO t = true → ∀ (env : Fun.Env) (v : Fun.Value) (ty : Core.Ty)
-        (st : CompileState) (P : Core.Term) (st' : CompileState) (m : Nat) (ρ : CEnv) (n : Nat),
-        compile t ty st = .ok (P, st') → pureVal p t env = some v →
-        EnvRel G q m (fv t) env ρ → (∀ y ∈ fv t, y ≠ sig) →
+  /-- the translation of a pure term denotes a value related to the term's value -/
+  theorem core_pure :
+      ∀ (t : Fun.Term), pureFO p gc t = true → ∀ (env : Fun.Env) (v : Fun.Value) (ty : Core.Ty)
+        (st : CompileState) (P : Core.Term) (st' : CompileState) (m : Nat) (ρ0 ρ : CEnv) (n : Nat),
+        compile t ty st = .ok (P, st') → StOK q st' → TermNames t st → pureVal p t env = some v →
+        EnvRel G q m (fv t) env ρ0 → BoundOn (tfvTerm P []) ρ0 → AgreeOn (tfvTerm P []) ρ0 ρ →
         PVal q P ρ n (VRel G q m v)
-    | .var x vty chi, _, env, v, ty, st, P, st', m, ρ, n, hc, hv, he, hs => by
+    | .var x vty chi, _, env, v, ty, st, P, st', m, ρ0, ρ, n, hc, _, htn, hv, he, _, hag => by
       rw [c_var] at hc
       cases vty with
       | none => simp at hc
@@ -109,8 +155,10 @@ mutual
         simp only [pureVal] at hv
         rw [hv] at h1
         cases h1
-        exact ⟨rfl, hs x (by simp [fv]), V', h2, h3⟩
-    | .lit k, _, env, v, ty, st, P, st', m, ρ, n, hc, hv, he, hs => by
+        refine ⟨rfl, htn.fv_ne_sig x (by simp [fv]), V', ?_, h3⟩
+        rw [hag ⟨⟨x, 0⟩, .prd, compileTy τ⟩ (mem_tfv_var.2 rfl)]
+        exact h2
+    | .lit k, _, env, v, ty, st, P, st', m, ρ0, ρ, n, hc, _, _, hv, _, _, _ => by
       rw [c_lit] at hc
       simp only [Except.ok.injEq, Prod.mk.injEq] at hc
       obtain ⟨rfl, _⟩ := hc
@@ -121,7 +169,7 @@ mutual
         exact ⟨0, ρ, n0, .lit k, .int (BitVec.ofInt 64 k), .refl _, Nat.le_refl _, .refl _ _, rfl, rfl,
           .int _ _⟩
       exact ⟨fun pc z ty' e => (by cases e), fun _ => ⟨hev n, hev (n + 1)⟩⟩
-    | .op a o b, hpf, env, v, ty, st, P, st', m, ρ, n, hc, hv, he, hs => by
+    | .op a o b, hpf, env, v, ty, st, P, st', m, ρ0, ρ, n, hc, hst, htn, hv, he, hbd, hag => by
       simp only [pureFO, Bool.and_eq_true] at hpf
       rw [c_op] at hc
       cases hca : compile a .i64 st with
@@ -133,7 +181,7 @@ mutual
         | ok rb =>
           obtain ⟨B, st2⟩ := rb
           simp only [hca, hcb, Except.ok.injEq, Prod.mk.injEq] at hc
-          obtain ⟨rfl, _⟩ := hc
+          obtain ⟨rfl, rfl⟩ := hc
           simp only [pureVal] at hv
           cases ha : pureVal p a env with
           | none => simp [ha] at hv
@@ -152,26 +200,34 @@ mutual
                   | ok r =>
                     simp only [har, exceptToOption, Except.map, Option.some.injEq] at hv
                     subst hv
-                    have hea : EnvRel G q m (fv a) env ρ :=
-                      he.sub fun y hy => by simp [fv, hy]
-                    have heb : EnvRel G q m (fv b) env ρ :=
-                      he.sub fun y hy => by simp [fv, hy]
-                    have hsa : ∀ y ∈ fv a, y ≠ sig := fun y hy => hs y (by simp [fv, hy])
-                    have hsb : ∀ y ∈ fv b, y ≠ sig := fun y hy => hs y (by simp [fv, hy])
+                    have fa := fs_compile hca
+                    have fb := fs_compile hcb
+                    have hst1 := hst.of_fresh fb.1
+                    have tna : TermNames a st := htn.of_sub (fun y hy => by simp [fv, hy])
+                      (fun y hy => by simp [binderNames, hy]) (fs_stepRel.refl st)
+                    have tnb : TermNames b st1 := htn.of_sub (fun y hy => by simp [fv, hy])
+                      (fun y hy => by simp [binderNames, hy]) fa
+                    have hea : EnvRel G q m (fv a) env ρ0 := he.sub fun y hy => by simp [fv, hy]
+                    have heb : EnvRel G q m (fv b) env ρ0 := he.sub fun y hy => by simp [fv, hy]
+                    have hbdA : BoundOn (tfvTerm A []) ρ0 := hbd.mono fun y hy => mem_tfv_op.2 (.inl hy)
+                    have hbdB : BoundOn (tfvTerm B []) ρ0 := hbd.mono fun y hy => mem_tfv_op.2 (.inr hy)
+                    have hagA : AgreeOn (tfvTerm A []) ρ0 ρ := hag.mono fun y hy => mem_tfv_op.2 (.inl hy)
+                    have hagB : AgreeOn (tfvTerm B []) ρ0 ρ := hag.mono fun y hy => mem_tfv_op.2 (.inr hy)
                     have hA : ∀ n0, PVal q A ρ n0 (IsInt x) := fun n0 =>
-                      (core_pure hq hp a hpf.1.2 env _ _ st A st1 m ρ n0 hca ha hea hsa).imp
+                      (core_pure a hpf.1.2 env _ _ st A st1 m ρ0 ρ n0 hca hst1 tna ha hea hbdA hagA).imp
                         fun V h => h.int_inv
                     have hB : ∀ n0 ρ' n', SigExt n0 ρ ρ' → n0 ≤ n' → PVal q B ρ' n' (IsInt y) :=
-                      fun n0 ρ' n' hext _ =>
-                        (core_pure hq hp b hpf.2 env _ _ st1 B st2 m ρ' n' hcb hb
-                          (heb.sigExt hext hsb) hsb).imp fun V h => h.int_inv
+                      fun n0 ρ' n' hext _ => by
+                        obtain ⟨ρ0', he', hbd', hag'⟩ := ideal_sigExt heb hbdB hagB hext tnb.fv_ne_sig
+                        exact (core_pure b hpf.2 env _ _ st1 B st2 m ρ0' ρ' n' hcb hst tnb hb
+                          he' hbd' hag').imp fun V h => h.int_inv
                     have hev : ∀ n0, PEval q (.op A (compileOp o) B) ρ n0 (VRel G q m (.int r)) :=
-                      fun n0 => (peval_op hq (hA n0) (hB n0) har).imp fun V h => by
+                      fun n0 => (peval_op (hA n0) (hB n0) har).imp fun V h => by
                         rw [show V = .int r from h]; exact .int _ _
                     exact ⟨fun pc z ty' e => (by cases e), fun _ => ⟨hev n, hev (n + 1)⟩⟩
                 | _ => simp at hv
               | _ => simp at hv
-    | .ctor K args cty0, hpf, env, v, ty, st, P, st', m, ρ, n, hc, hv, he, hs => by
+    | .ctor K args cty0, hpf, env, v, ty, st, P, st', m, ρ0, ρ, n, hc, hst, htn, hv, he, hbd, hag => by
       simp only [pureFO] at hpf
       rw [c_ctor] at hc
       cases hca : compileSubst args st with
@@ -182,52 +238,81 @@ mutual
         | none => simp [hca] at hc
         | some τ =>
           simp only [hca, Except.ok.injEq, Prod.mk.injEq] at hc
-          obtain ⟨rfl, _⟩ := hc
+          obtain ⟨rfl, rfl⟩ := hc
           simp only [pureVal, Option.map_eq_some_iff] at hv
           obtain ⟨vs, hvs, rfl⟩ := hv
           have hev : ∀ n0, PEval q (.xtor .prd ⟨K, 0⟩ as' (compileTy τ)) ρ n0
               (VRel G q m (.con K vs)) := by
             intro n0 c cty out hc
             obtain ⟨i, ρ', n', as'', Vs, h1, h2, h3, h4, _, h6, h7⟩ :=
-              core_args hq hp args hpf (fun as => .cut cty (.xtor .prd ⟨K, 0⟩ as (compileTy τ)) c)
-                (argCtx_xtor _ _ _ _) .nil env vs st as' st1 m ρ n0 out .nil [] hca hvs
-                (by simpa [fv] using he) (by simpa [fv] using hs) rfl trivial rfl
+              core_args args hpf (fun as => .cut cty (.xtor .prd ⟨K, 0⟩ as (compileTy τ)) c)
+                (argCtx_xtor _ _ _ _) .nil env vs st as' st1 m ρ0 ρ n0 out .nil [] hca hst
+                ⟨by simpa [fv] using htn.fv, by simpa [binderNames] using htn.bd, htn.nosig⟩ hvs
+                (by simpa [fv] using he)
+                (hbd.mono fun y hy => mem_tfv_xtor.2 hy)
+                (hag.mono fun y hy => mem_tfv_xtor.2 hy)
+                rfl trivial rfl
             simp only [appArgs, appArgs_nil, List.nil_append] at h1 h6
             refine ⟨i, ρ', n', .xtor .prd ⟨K, 0⟩ as'' (compileTy τ), .con ⟨K, 0⟩ Vs, h1, h2, h3, h4, ?_,
               .con h7⟩
             simp [Core.prdVal, h6]
           exact ⟨fun pc z ty' e => (by cases e), fun _ => ⟨hev n, hev (n + 1)⟩⟩
-    | .paren t, hpf, env, v, ty, st, P, st', m, ρ, n, hc, hv, he, hs => by
+    | .new cs cty0, hpf, env, v, ty, st, P, st', m, ρ0, ρ, n, hc, hst, htn, hv, he, hbd, hag => by
+      simp only [pureFO] at hpf
+      rw [c_new] at hc
+      cases hcc : compileCoclauses cs st with
+      | error e => simp [hcc] at hc
+      | ok rc =>
+        obtain ⟨cs', st1⟩ := rc
+        cases cty0 with
+        | none => simp [hcc] at hc
+        | some τ =>
+          simp only [hcc, Except.ok.injEq, Prod.mk.injEq] at hc
+          obtain ⟨rfl, rfl⟩ := hc
+          simp only [pureVal, Option.some.injEq] at hv
+          subst hv
+          have hvr : VRel G q m (.obj cs env) (.cocase ρ cs') :=
+            .obj (hgc cs hpf)
+              ⟨st, st1, hcc, hst, ⟨by simpa [fv] using htn.fv, by simpa [binderNames] using htn.bd,
+                htn.nosig⟩⟩
+              (by simpa [fv] using he) (by simpa [tfvTerm] using hbd) (by simpa [tfvTerm] using hag)
+          have hev : ∀ n0, PEval q (.xcase .prd (compileTy τ) cs') ρ n0 (VRel G q m (.obj cs env)) := by
+            intro n0 c cty out hc
+            exact ⟨0, ρ, n0, _, .cocase ρ cs', .refl _, Nat.le_refl _, .refl _ _, rfl, rfl, hvr⟩
+          exact ⟨fun pc z ty' e => (by cases e), fun _ => ⟨hev n, hev (n + 1)⟩⟩
+    | .paren t, hpf, env, v, ty, st, P, st', m, ρ0, ρ, n, hc, hst, htn, hv, he, hbd, hag => by
       simp only [pureFO] at hpf
       rw [c_paren] at hc
       simp only [pureVal] at hv
-      exact core_pure hq hp t hpf env v ty st P st' m ρ n hc hv (by simpa [fv] using he)
-        (by simpa [fv] using hs)
-    | .ifc .., hpf, _, _, _, _, _, _, _, _, _, _, _, _, _ => by simp [pureFO] at hpf
-    | .ifz .., hpf, _, _, _, _, _, _, _, _, _, _, _, _, _ => by simp [pureFO] at hpf
-    | .print .., hpf, _, _, _, _, _, _, _, _, _, _, _, _, _ => by simp [pureFO] at hpf
-    | .letIn .., hpf, _, _, _, _, _, _, _, _, _, _, _, _, _ => by simp [pureFO] at hpf
-    | .call .., hpf, _, _, _, _, _, _, _, _, _, _, _, _, _ => by simp [pureFO] at hpf
-    | .dtor .., hpf, _, _, _, _, _, _, _, _, _, _, _, _, _ => by simp [pureFO] at hpf
-    | .case .., hpf, _, _, _, _, _, _, _, _, _, _, _, _, _ => by simp [pureFO] at hpf
-    | .new .., hpf, _, _, _, _, _, _, _, _, _, _, _, _, _ => by simp [pureFO] at hpf
-    | .label .., hpf, _, _, _, _, _, _, _, _, _, _, _, _, _ => by simp [pureFO] at hpf
-    | .goto .., hpf, _, _, _, _, _, _, _, _, _, _, _, _, _ => by simp [pureFO] at hpf
-    | .exit .., hpf, _, _, _, _, _, _, _, _, _, _, _, _, _ => by simp [pureFO] at hpf
+      exact core_pure t hpf env v ty st P st' m ρ0 ρ n hc hst
+        ⟨by simpa [fv] using htn.fv, by simpa [binderNames] using htn.bd, htn.nosig⟩ hv
+        (by simpa [fv] using he) hbd hag
+    | .ifc .., hpf, _, _, _, _, _, _, _, _, _, _, _, _, _, _, _, _, _ => by simp [pureFO] at hpf
+    | .ifz .., hpf, _, _, _, _, _, _, _, _, _, _, _, _, _, _, _, _, _ => by simp [pureFO] at hpf
+    | .print .., hpf, _, _, _, _, _, _, _, _, _, _, _, _, _, _, _, _, _ => by simp [pureFO] at hpf
+    | .letIn .., hpf, _, _, _, _, _, _, _, _, _, _, _, _, _, _, _, _, _ => by simp [pureFO] at hpf
+    | .call .., hpf, _, _, _, _, _, _, _, _, _, _, _, _, _, _, _, _, _ => by simp [pureFO] at hpf
+    | .dtor .., hpf, _, _, _, _, _, _, _, _, _, _, _, _, _, _, _, _, _ => by simp [pureFO] at hpf
+    | .case .., hpf, _, _, _, _, _, _, _, _, _, _, _, _, _, _, _, _, _ => by simp [pureFO] at hpf
+    | .label .., hpf, _, _, _, _, _, _, _, _, _, _, _, _, _, _, _, _, _ => by simp [pureFO] at hpf
+    | .goto .., hpf, _, _, _, _, _, _, _, _, _, _, _, _, _, _, _, _, _ => by simp [pureFO] at hpf
+    | .exit .., hpf, _, _, _, _, _, _, _, _, _, _, _, _, _, _, _, _, _ => by simp [pureFO] at hpf
   /-- the translated arguments are evaluated left to right and replaced by variables -/
-  theorem core_args (hq : q.codataTypes = []) (hp : p.codataTypes = []) :
-      ∀ (args : Fun.Terms), pureFOs args = true → ∀ (Sc : Core.Args → Core.Stmt), ArgCtx Sc →
+  theorem core_args :
+      ∀ (args : Fun.Terms), pureFOs p gc args = true → ∀ (Sc : Core.Args → Core.Stmt), ArgCtx Sc →
         ∀ (tail : Core.Args) (env : Fun.Env) (vs : List Fun.Value) (st : CompileState)
-        (as' : Core.Args) (st' : CompileState) (m : Nat) (ρ : CEnv) (n : Nat) (out : Out)
+        (as' : Core.Args) (st' : CompileState) (m : Nat) (ρ0 ρ : CEnv) (n : Nat) (out : Out)
         (pre : Core.Args) (Vpre : List CVal),
-        compileSubst args st = .ok (as', st') → pureArgs p args env = some vs →
-        EnvRel G q m (fvArgs args) env ρ → (∀ y ∈ fvArgs args, y ≠ sig) →
+        compileSubst args st = .ok (as', st') → StOK q st' → ArgsNames args st →
+        pureArgs p args env = some vs →
+        EnvRel G q m (fvArgs args) env ρ0 → BoundOn (tfvArgs as' []) ρ0 → AgreeOn (tfvArgs as' []) ρ0 ρ →
         argsAllVar pre = true → argsSigBelow n pre → Core.argVals ρ pre = .ok Vpre →
         ∃ i ρ' n' as'' Vs, CSteps q ⟨Sc (appArgs pre (appArgs as' tail)), ρ, out, n⟩
             ⟨Sc (appArgs (appArgs pre as'') tail), ρ', out, n'⟩ i ∧ n ≤ n' ∧ SigExt n ρ ρ' ∧
           argsAllVar as'' = true ∧ argsSigBelow n' (appArgs pre as'') ∧
           Core.argVals ρ' (appArgs pre as'') = .ok (Vpre ++ Vs) ∧ VRelL G q m vs Vs
-    | .nil, _, Sc, _, tail, env, vs, st, as', st', m, ρ, n, out, pre, Vpre, hc, hv, _, _, hpre, hsb, hpv => by
+    | .nil, _, Sc, _, tail, env, vs, st, as', st', m, ρ0, ρ, n, out, pre, Vpre, hc, _, _, hv, _, _, _,
+        hpre, hsb, hpv => by
       rw [subst_nil] at hc
       simp only [Except.ok.injEq, Prod.mk.injEq] at hc
       obtain ⟨rfl, _⟩ := hc
@@ -237,9 +322,10 @@ mutual
       · simp only [appArgs, appArgs_nil]; exact .refl _
       · simpa [appArgs_nil] using hsb
       · simpa [appArgs_nil] using hpv
-    | .cons t rest, hpf, Sc, hSc, tail, env, vs, st, as', st', m, ρ, n, out, pre, Vpre, hc, hv, he, hs,
-        hpre, hsb, hpv => by
+    | .cons t rest, hpf, Sc, hSc, tail, env, vs, st, as', st', m, ρ0, ρ, n, out, pre, Vpre, hc, hst, htn,
+        hv, he, hbd, hag, hpre, hsb, hpv => by
       simp only [pureFOs, Bool.and_eq_true] at hpf
+      obtain ⟨⟨hpt, hshape⟩, hpr⟩ := hpf
       rw [subst_cons] at hc
       rw [pureArgs_cons] at hv
       cases hav : argVal p t env with
@@ -250,8 +336,7 @@ mutual
         | some vr =>
           simp only [hav, hvr, Option.some.injEq] at hv
           subst hv
-          have her : EnvRel G q m (fvArgs rest) env ρ := he.sub fun y hy => by simp [fvArgs, hy]
-          have hsr : ∀ y ∈ fvArgs rest, y ≠ sig := fun y hy => hs y (by simp [fvArgs, hy])
+          have her : EnvRel G q m (fvArgs rest) env ρ0 := he.sub fun y hy => by simp [fvArgs, hy]
           cases hcv : covarArg t with
           | some xt =>
             obtain ⟨x, oty⟩ := xt
@@ -267,8 +352,7 @@ mutual
               | ok rr =>
                 obtain ⟨r', st1⟩ := rr
                 simp only [hcr, Except.ok.injEq, Prod.mk.injEq] at hc
-                obtain ⟨rfl, _⟩ := hc
-                -- the Fun value is the continuation bound to `x`
+                obtain ⟨rfl, rfl⟩ := hc
                 unfold argVal argValWith at hav
                 simp only [isCov] at hav
                 obtain ⟨v', V', h1, h2, h3⟩ := he.get (y := x) (by simp [fvArgs, fv])
@@ -277,14 +361,20 @@ mutual
                   cases v' <;> simp at hav
                   rw [← hav]
                 subst hv1
-                have hx : x ≠ sig := hs x (by simp [fvArgs, fv])
+                have hx : x ≠ sig := fun e => htn.nosig (e ▸ htn.fv x (by simp [fvArgs, fv]))
+                have h2' : Core.Env.lookup ρ ⟨x, 0⟩ = .ok V' := by
+                  rw [hag ⟨⟨x, 0⟩, .cns, compileTy τ⟩ (mem_tfv_args_cons.2 (.inl (mem_tfv_var.2 rfl)))]
+                  exact h2
                 obtain ⟨i, ρ', n', as'', Vs, g1, g2, g3, g4, g5, g6, g7⟩ :=
-                  core_args hq hp rest hpf.2 Sc hSc tail env vr st r' st1 m ρ n out
+                  core_args rest hpr Sc hSc tail env vr st r' st1 m ρ0 ρ n out
                     (appArgs pre (.cons .cns (.var .cns ⟨x, 0⟩ (compileTy τ)) .nil)) (Vpre ++ [V'])
-                    hcr hvr her hsr
+                    hcr hst ⟨fun y hy => htn.fv y (by simp [fvArgs, hy]),
+                      fun y hy => htn.bd y (by simp [binderNamesArgs, hy]), htn.nosig⟩ hvr her
+                    (hbd.mono fun y hy => mem_tfv_args_cons.2 (.inr hy))
+                    (hag.mono fun y hy => mem_tfv_args_cons.2 (.inr hy))
                     (by simp [argsAllVar_app, hpre, argsAllVar, Core.Term.isVar])
                     (argsSigBelow_app _ _ hsb ⟨fun e => absurd e hx, trivial⟩)
-                    (argVals_app_single pre Vpre hpv h2)
+                    (argVals_app_single pre Vpre hpv h2')
                 refine ⟨i, ρ', n', .cons .cns (.var .cns ⟨x, 0⟩ (compileTy τ)) as'', V' :: Vs, ?_, g2, g3,
                   ?_, ?_, ?_, .cons h3 g7⟩
                 · simpa [appArgs, appArgs_assoc] using g1
@@ -298,8 +388,8 @@ mutual
             cases hty : t.getType with
             | none => simp [hty] at hc
             | some τ =>
-              rw [hty] at hc
-              simp only at hc
+              rw [hty] at hc hshape
+              simp only at hc hshape
               cases hct : compile t (compileTy τ) st with
               | error e => simp [hct] at hc
               | ok rt =>
@@ -309,28 +399,49 @@ mutual
                 | ok rr =>
                   obtain ⟨r', st2⟩ := rr
                   simp only [hct, hcr, Except.ok.injEq, Prod.mk.injEq] at hc
-                  obtain ⟨rfl, _⟩ := hc
-                  -- the Fun value is the pure value of `t`
-                  unfold argVal argValWith at hav
-                  simp only [covarArg_none_isCov hcv, hty, isCodataTy_nil hp, Bool.false_eq_true,
-                    if_false] at hav
-                  have het : EnvRel G q m (fv t) env ρ := he.sub fun y hy => by simp [fvArgs, hy]
-                  have hst : ∀ y ∈ fv t, y ≠ sig := fun y hy => hs y (by simp [fvArgs, hy])
-                  have hP := core_pure hq hp t hpf.1 env v1 _ st P st1 m ρ n hct hav het hst
+                  obtain ⟨rfl, rfl⟩ := hc
+                  -- the Fun value is the pure value of `t` (also when it is suspended)
+                  have hpv1 : pureVal p t env = some v1 := by
+                    unfold argVal argValWith at hav
+                    simp only [covarArg_none_isCov hcv, hty] at hav
+                    by_cases hcd : Fun.isCodataTy p τ = true
+                    · rw [if_pos hcd] at hav
+                      have hps : pureS t = true := by simpa [hcd] using hshape
+                      rw [← suspend_pure (p := p) t env hps]
+                      exact hav
+                    · rw [if_neg hcd] at hav
+                      exact hav
+                  have ft := fs_compile hct
+                  have fr : FS st1 st2 := (rel_subst fs_stepRel rest) st1 r' st2 hcr
+                  have hst1 := hst.of_fresh fr.1
+                  have tnt : TermNames t st :=
+                    ⟨fun y hy => htn.fv y (by simp [fvArgs, hy]),
+                      fun y hy => htn.bd y (by simp [binderNamesArgs, hy]), htn.nosig⟩
+                  have tnr : ArgsNames rest st1 :=
+                    ⟨fun y hy => ft.sub y (htn.fv y (by simp [fvArgs, hy])),
+                      fun y hy => ft.sub y (htn.bd y (by simp [binderNamesArgs, hy])), ft.2 htn.nosig⟩
+                  have het : EnvRel G q m (fv t) env ρ0 := he.sub fun y hy => by simp [fvArgs, hy]
+                  have hP := core_pure t hpt env v1 _ st P st1 m ρ0 ρ n hct hst1 tnt hpv1 het
+                    (hbd.mono fun y hy => mem_tfv_args_cons.2 (.inl hy))
+                    (hag.mono fun y hy => mem_tfv_args_cons.2 (.inl hy))
                   obtain ⟨i1, ρ1, n1, z, zty, V1, s1, hn1, e1, l1, r1, b1⟩ :=
-                    core_operand' hq hP
+                    core_operand' hP
                       (fun h => Sc (appArgs pre (.cons .prd h (appArgs r' tail)))) out
                       (fun hnv => hSc _ _ _ _ (by
                         rw [args_split_app _ _ hpre, args_split_cons_nonvar hnv]))
-                  have hpv1 : Core.argVals ρ1 pre = .ok Vpre := by
+                  have hpv1' : Core.argVals ρ1 pre = .ok Vpre := by
                     rw [argVals_sigExt e1 pre hsb]; exact hpv
+                  obtain ⟨ρ01, he1, hbd1, hag1⟩ := ideal_sigExt her
+                    (hbd.mono fun y hy => mem_tfv_args_cons.2 (.inr hy))
+                    (hag.mono fun y hy => mem_tfv_args_cons.2 (.inr hy)) e1
+                    (fun y hy e => tnr.nosig (e ▸ tnr.fv y hy))
                   obtain ⟨i, ρ', n', as'', Vs, g1, g2, g3, g4, g5, g6, g7⟩ :=
-                    core_args hq hp rest hpf.2 Sc hSc tail env vr st1 r' st2 m ρ1 n1 out
+                    core_args rest hpr Sc hSc tail env vr st1 r' st2 m ρ01 ρ1 n1 out
                       (appArgs pre (.cons .prd (.var .prd z zty) .nil)) (Vpre ++ [V1])
-                      hcr hvr (her.sigExt e1 hsr) hsr
+                      hcr hst tnr hvr he1 hbd1 hag1
                       (by simp [argsAllVar_app, hpre, argsAllVar, Core.Term.isVar])
                       (argsSigBelow_app _ _ (argsSigBelow_mono hn1 pre hsb) ⟨b1, trivial⟩)
-                      (argVals_app_single pre Vpre hpv1 l1)
+                      (argVals_app_single pre Vpre hpv1' l1)
                   refine ⟨i1 + i, ρ', n', .cons .prd (.var .prd z zty) as'', V1 :: Vs, ?_, by omega,
                     e1.trans g3 hn1, ?_, ?_, ?_, .cons r1 g7⟩
                   · refine CSteps.trans (by simpa [appArgs] using s1) ?_
@@ -338,6 +449,8 @@ mutual
                   · simp [argsAllVar, Core.Term.isVar, g4]
                   · simpa [appArgs, appArgs_assoc] using g5
                   · simpa [appArgs, appArgs_assoc] using g6
+end
+
 end
 
 end Scc.Fun2Core.Sem
